@@ -1,6 +1,6 @@
 SPECIFICATION Spec
 CONSTANTS
-  Pool = {"calls_bad", "ct_good", "ct_bad", "ct_expr", "closure", "use_mono", "use_struct", "loops"}
+  Pool = {"ct_good", "ct_bad", "ct_many", "ct_expr", "closure", "use_struct", "loops", "long_names"}
   EntryOps = {}
   MaxLen = 3
   EmitHist = TRUE
